@@ -455,6 +455,9 @@ func (w *World) timerCanFire(t *timerState) bool {
 	if t.periodic && t.fires >= w.timerBudget {
 		return false
 	}
+	if !t.periodic && w.noOneShot {
+		return false // the harness models very long time-outs: one-shot timers never fire
+	}
 	for _, g := range w.gs {
 		if g.done || g.pend == nil {
 			continue
